@@ -9,6 +9,32 @@ fn opt_hex(v: Option<Vec<u8>>) -> String {
     }
 }
 
+/// complex vectors on the wire: `re_bits:im_bits,...` (IEEE-754 bit patterns; negative zero printed as zero)
+pub fn cparse(s: &str) -> Vec<(f64, f64)> {
+    if s == "-" {
+        return vec![];
+    }
+    s.split(',')
+        .map(|p| {
+            let (a, b) = p.split_once(':').unwrap();
+            (f64::from_bits(a.parse().unwrap()), f64::from_bits(b.parse().unwrap()))
+        })
+        .collect()
+}
+pub fn zbits(x: f64) -> u64 {
+    if x == 0.0 {
+        0
+    } else {
+        x.to_bits()
+    }
+}
+pub fn cfmt(v: &[(f64, f64)]) -> String {
+    if v.is_empty() {
+        return "-".to_string();
+    }
+    v.iter().map(|(a, b)| format!("{}:{}", zbits(*a), zbits(*b))).collect::<Vec<_>>().join(",")
+}
+
 pub fn fbits(s: &str) -> f64 {
     f64::from_bits(s.parse::<u64>().unwrap())
 }
@@ -120,6 +146,24 @@ pub fn exec(tok: &[&str]) -> String {
         "sign_salt" => crate::sign::op_sign_salt(tok[1].parse().unwrap(), &unhex(tok[2]), &unhex(tok[3]), tok[4].parse().unwrap()),
         "sign_fresh" => crate::sign::op_sign_fresh(tok[1].parse().unwrap(), &unhex(tok[2]), tok[3].parse().unwrap(), tok[4].parse().unwrap()),
         "sign_leaves" => crate::c01::op_sign_leaves(tok[1].parse().unwrap(), &unhex(tok[2]), &unhex(tok[3]), tok[4].parse().unwrap()),
+        // ---- floating-point FFT layer (C13) -------------------------------------------------------------
+        "cplx_fft" => cfmt(&vh::cplx_fft(&cparse(tok[1]))),
+        "cplx_ifft" => cfmt(&vh::cplx_ifft(&cparse(tok[1]))),
+        "cplx_roundtrip" => cfmt(&vh::cplx_ifft(&vh::cplx_fft(&cparse(tok[1])))),
+        "cplx_mul" => {
+            let a = vh::cplx_fft(&cparse(tok[1]));
+            let b = vh::cplx_fft(&cparse(tok[2]));
+            cfmt(&vh::cplx_ifft(&vh::cplx_hadamard_mul(&a, &b)))
+        }
+        "cplx_split" => {
+            let (x, y) = vh::cplx_split_fft(&cparse(tok[1]));
+            format!("{} {}", cfmt(&x), cfmt(&y))
+        }
+        "cplx_merge" => cfmt(&vh::cplx_merge_fft(&cparse(tok[1]), &cparse(tok[2]))),
+        "cplx_split_of_fft" => {
+            let (x, y) = vh::cplx_split_fft(&vh::cplx_fft(&cparse(tok[1])));
+            format!("{} {}", cfmt(&x), cfmt(&y))
+        }
         // ---- hash to point (C14) -------------------------------------------------------------------
         "hash_to_point" => ints(&vh::hash_to_point(&unhex(tok[2]), tok[1].parse().unwrap())),
         _ => panic!("bad-op {}", tok[0]),
